@@ -18,6 +18,20 @@
                      (NamedTuple / dataclass locals: members inlined, then one local per field, loops over zip(record, record)
                      unrolled, typed field reads become positions) and `_ConstDicts` (dicts only used with constant keys -> one
                      local per key).  What cannot be split is listed in `FuncInfo.unsplit_records`.
+                     Round 3 additions: `functools.partial` objects bound once are applied (`_Functional._is_partial`), `f(*(a, b))` is
+                     `f(a, b)`, `getattr(x, "n")` is `x.n`, a local bound once to a module-level class / function is that object
+                     (`cls__i3 = Rec` of an inlined classmethod), any / all over static tables built by `tuple(<comprehension over a
+                     literal>)` and over in-place tuples of pairs of locals (`F(*row) for row in ((a, b), ..)`) are written out,
+                     `_unroll_local_tables` (for loops over tuples of pairs of locals, with break / continue / else, in the engine's
+                     block / jump forms), `bool(a and self._h())` is split like `a and self._h()`, record methods called through the
+                     class (`Rec.merge(acc, item)`), `Rec(*(E for x, y in zip(r1, r2)))`, a record local computed from its own old
+                     value (fields read before any is written), `_expand_generators_keeping` (the engine's generator expansion with
+                     the extractors kept opaque inside the generator's body).
+* `ShortProv`     -- provenance in which "put into a container, taken out again" leaves no steps (the engine's paths are cut at a fixed
+                     length); used for the element kinds of sets.
+* `Members`       -- the walks over the members of a step (for statements / comprehension generators over the slot list or over a
+                     container filled member by member), their completeness and what they compute (C15.members; the guard scenarios
+                     use them to know that a walk which every non-nop member leaves does not come to its normal end).
 * `origins` / `flows_from` / `same_object`
                   -- allocation-site identity of a local object: the expression(s) that created the value a name holds, following
                      plain copies (also the parameter bindings of inlined helpers), tuple-literal unpacking and tuples returned by
@@ -319,7 +333,8 @@ class _Functional(ast.NodeTransformer):
     def __init__(self, repo: Repo, f: FuncInfo, fn: ast.AST):
         self.repo, self.f = repo, f
         self.changed = False
-        self.locals = set(_store_counts(fn))
+        self.counts = _store_counts(fn)
+        self.locals = set(self.counts)
         self.single = _single_defs(fn)
 
     def visit_FunctionDef(self, n):
@@ -352,11 +367,28 @@ class _Functional(ast.NodeTransformer):
             return True
         if isinstance(e, ast.Call) and (self.ext(e.func) or "") in ("operator.attrgetter", "operator.itemgetter", "operator.methodcaller"):
             return True
+        if self._is_partial(e):
+            return True
         if (self.ext(e) or "").startswith("operator."):
             return True
         if isinstance(e, ast.Attribute) and isinstance(e.value, ast.Name) and e.value.id in _BUILTIN_TYPES and e.value.id not in self.locals:
             return True
         return False
+
+    def _frozen(self, a: ast.AST) -> bool:
+        """an argument whose value is the same when the partial is called as when it was made"""
+        if isinstance(a, ast.Constant):
+            return True
+        if isinstance(a, ast.Name):
+            return a.id not in self.locals or self.counts.get(a.id) == 1
+        if isinstance(a, ast.Attribute):
+            return self._frozen(a.value)
+        return False
+
+    def _is_partial(self, e: ast.AST) -> bool:
+        return isinstance(e, ast.Call) and (self.ext(e.func) or "") == "functools.partial" and bool(e.args) \
+            and not any(isinstance(a, ast.Starred) for a in e.args) and not any(k.arg is None for k in e.keywords) \
+            and all(self._frozen(a) for a in e.args[1:]) and all(self._frozen(k.value) for k in e.keywords)
 
     def resolve(self, F: ast.AST, depth: int = 0) -> ast.AST:
         if isinstance(F, ast.Name) and depth < 4:
@@ -395,6 +427,17 @@ class _Functional(ast.NodeTransformer):
                     if m and m.group(1) in mapping:
                         mapping[x.id] = mapping[m.group(1)]
             return _Subst(mapping).visit(copy.deepcopy(F.body))
+        if self._is_partial(F):
+            # partial(G, a, k=v)(b, k2=w) is G(a, b, k=v, k2=w)
+            later = {k.arg for k in keywords}
+            kws = [copy.deepcopy(k) for k in F.keywords if k.arg not in later] + list(keywords)
+            inner = copy.deepcopy(F.args[0])
+            new_args = [copy.deepcopy(a) for a in F.args[1:]] + list(args)
+            if self.is_form(self.resolve(inner)):
+                got = self.apply(inner, new_args, kws)
+                if got is not None:
+                    return got
+            return ast.Call(func=inner, args=new_args, keywords=kws)
         if isinstance(F, ast.Call) and not keywords:
             kind = self.ext(F.func) or ""
             if kind == "operator.attrgetter" and len(F.args) == 1 and len(args) == 1 and isinstance(F.args[0], ast.Constant) and isinstance(F.args[0].value, str):
@@ -455,6 +498,20 @@ class _Functional(ast.NodeTransformer):
         self.generic_visit(n)
         new: Optional[ast.AST] = None
         fn = n.func
+        if any(isinstance(a, ast.Starred) and isinstance(a.value, (ast.Tuple, ast.List)) and not any(isinstance(y, ast.Starred) for y in a.value.elts) for a in n.args):
+            # f(*(a, b)) is f(a, b)
+            flat: List[ast.AST] = []
+            for a in n.args:
+                if isinstance(a, ast.Starred) and isinstance(a.value, (ast.Tuple, ast.List)) and not any(isinstance(y, ast.Starred) for y in a.value.elts):
+                    flat.extend(a.value.elts)
+                else:
+                    flat.append(a)
+            n.args = flat
+            self.changed = True
+        if isinstance(fn, ast.Name) and fn.id in self.single and isinstance(self.single[fn.id], ast.Name) and self.single[fn.id].id not in self.locals:
+            # a local bound once to a module-level class / function (`cls__i3 = Rec` of an inlined classmethod): the call is a call of that
+            n.func = fn = ast.copy_location(ast.Name(id=self.single[fn.id].id, ctx=ast.Load()), fn)
+            self.changed = True
         star = any(isinstance(a, ast.Starred) for a in n.args) or any(k.arg is None for k in n.keywords)
         if isinstance(fn, ast.Name) and fn.id in ("map", "filter") and fn.id not in self.locals and not star and not n.keywords and len(n.args) >= 2:
             k = next(_nf_counter)
@@ -482,6 +539,9 @@ class _Functional(ast.NodeTransformer):
             new = self.apply(fn, list(n.args), list(n.keywords)) if self.is_form(self.resolve(fn)) else None
             if new is None and isinstance(fn, ast.Name) and fn.id in ("any", "all") and fn.id not in self.locals and len(n.args) == 1 and not n.keywords:
                 new = self._unrolled(n)
+            if new is None and isinstance(fn, ast.Name) and fn.id == "getattr" and fn.id not in self.locals and len(n.args) == 2 and not n.keywords \
+                    and isinstance(n.args[1], ast.Constant) and isinstance(n.args[1].value, str) and n.args[1].value.isidentifier():
+                new = ast.Attribute(value=n.args[0], attr=n.args[1].value, ctx=ast.Load())
             if new is None:
                 new = self._trivial_classmethod(n)
             if new is None and isinstance(fn, ast.Name) and fn.id in ("set", "list") and fn.id not in self.locals and len(n.args) == 1 and not n.keywords \
@@ -515,25 +575,92 @@ class _Functional(ast.NodeTransformer):
                 return r[1]
         return None
 
-    def _const_rows(self, it: ast.AST) -> Optional[List[ast.AST]]:
-        """rows of a table of constants (module constant, or a literal in place)"""
+    def _const_rows(self, it: ast.AST, depth: int = 0) -> Optional[List[ast.AST]]:
+        """rows of a static table: a display of static values (constants, references to module-level objects, callable forms,
+        tuples of those) written in place or bound once at module level, `tuple(..)` / `list(..)` of such a table, and a
+        comprehension over such a table whose element is static once the row is put in (`tuple((attrgetter(a), attrgetter(b))
+        for a, b in (("x", "y"), ..))`)"""
+        if depth > 4:
+            return None
         t = self._global_value(it) if isinstance(it, ast.Name) else it
-        if isinstance(t, (ast.Tuple, ast.List)) and t.elts and all(self._static(x) and not isinstance(x, ast.Name) for x in t.elts) \
-                and all(isinstance(x, ast.Constant) or (isinstance(x, ast.Tuple) and all(isinstance(y, ast.Constant) for y in x.elts)) for x in t.elts):
+        if isinstance(t, ast.Call) and isinstance(t.func, ast.Name) and t.func.id in ("tuple", "list") and t.func.id not in self.locals \
+                and len(t.args) == 1 and not t.keywords:
+            return self._const_rows(t.args[0], depth + 1)
+        if isinstance(t, (ast.Tuple, ast.List)) and t.elts and all(self._static(x) and not isinstance(x, ast.Name) for x in t.elts):
             return list(t.elts)
+        if isinstance(t, (ast.GeneratorExp, ast.ListComp)) and len(t.generators) == 1 and not t.generators[0].ifs and not t.generators[0].is_async:
+            gen = t.generators[0]
+            inner = self._const_rows(gen.iter, depth + 1)
+            if inner is None:
+                return None
+            rows = []
+            for row in inner:
+                env: Dict[str, ast.AST] = {}
+                if not Verdict.bind(gen.target, row, env):
+                    return None
+                elt = _Subst(env).visit(copy.deepcopy(t.elt))
+                if not self._static(elt) or isinstance(elt, ast.Name):
+                    return None
+                rows.append(elt)
+            return rows
         return None
 
+    @staticmethod
+    def _applies_rows(elt: ast.AST, names: Set[str]) -> bool:
+        """the row is the argument list of a call: `F(*row)`"""
+        return any(isinstance(x, ast.Call) and any(isinstance(a, ast.Starred) and isinstance(a.value, ast.Name) and a.value.id in names for a in x.args)
+                   for x in ast.walk(elt))
+
+    def _local_rows(self, it: ast.AST) -> Optional[List[ast.AST]]:
+        """rows of a display of tuples of plain locals (written in place, or bound once to a local): each row can be written where it
+        is used (the locals named in it are bound once, so they still hold the same value there)"""
+        t = self.single.get(it.id) if isinstance(it, ast.Name) else it
+        if isinstance(t, ast.Call) and isinstance(t.func, ast.Name) and t.func.id in ("tuple", "list") and t.func.id not in self.locals and len(t.args) == 1 and not t.keywords:
+            t = t.args[0]
+        if not isinstance(t, (ast.Tuple, ast.List)) or not t.elts:
+            return None
+
+        def plain(e: ast.AST) -> bool:
+            if isinstance(e, ast.Constant):
+                return True
+            if isinstance(e, ast.Name):
+                return e.id not in self.locals or self.counts.get(e.id) == 1
+            if isinstance(e, (ast.Tuple, ast.List)):
+                return all(plain(y) for y in e.elts)
+            return False
+        if not all(isinstance(r_, (ast.Tuple, ast.List)) and plain(r_) for r_ in t.elts):
+            return None
+        return list(t.elts)
+
+    @staticmethod
+    def _selecting_use(elt: ast.AST, names: Set[str]) -> bool:
+        """the row selects what is computed: it is used as a subscript, is called, or names an attribute (`getattr(x, row)`)"""
+        for x in ast.walk(elt):
+            if isinstance(x, ast.Subscript) and any(isinstance(y, ast.Name) and y.id in names for y in ast.walk(x.slice)):
+                return True
+            if isinstance(x, ast.Call):
+                if isinstance(x.func, ast.Name) and x.func.id in names:
+                    return True
+                if isinstance(x.func, ast.Name) and x.func.id == "getattr" and len(x.args) >= 2 and isinstance(x.args[1], ast.Name) and x.args[1].id in names:
+                    return True
+        return False
+
     def _unrolled(self, n: ast.Call) -> Optional[ast.AST]:
-        """any / all over a comprehension whose only iterable is a table of constants: the list of the instantiated elements"""
+        """any / all over a comprehension whose only iterable is a static table: the list of the instantiated elements"""
         c = n.args[0]
         if not isinstance(c, (ast.GeneratorExp, ast.ListComp)) or len(c.generators) != 1 or c.generators[0].ifs or c.generators[0].is_async:
             return None
         gen = c.generators[0]
+        names = C.target_names(gen.target)
+        if any(isinstance(x, ast.Name) and x.id in names and not isinstance(x.ctx, ast.Load) for x in ast.walk(c.elt)):
+            return None
         rows = self._const_rows(gen.iter)
+        if rows is not None and not self._selecting_use(c.elt, names):
+            return None         # only when the rows select something (keys of a dict / positions / fields / functions to apply)
+        if rows is None and self._applies_rows(c.elt, names):
+            rows = self._local_rows(gen.iter)       # F(*row) for row in ((a, b), (c, d)): the rows are the argument lists
         if rows is None or len(rows) > 40:
             return None
-        if not any(isinstance(x, ast.Subscript) and any(isinstance(y, ast.Name) and y.id in C.target_names(gen.target) for y in ast.walk(x.slice)) for x in ast.walk(c.elt)):
-            return None         # only when the constants select something (keys of a dict / positions)
         elts = []
         for row in rows:
             env: Dict[str, ast.AST] = {}
@@ -618,18 +745,79 @@ def _split_boolops(fn: ast.AST) -> bool:
         e = getattr(st, fld)
         neg = False
         inner = e
-        while isinstance(inner, ast.UnaryOp) and isinstance(inner.op, ast.Not) and fld == "test":
-            inner, neg = inner.operand, not neg
+        wraps: List[str] = []
+        while True:
+            if isinstance(inner, ast.UnaryOp) and isinstance(inner.op, ast.Not):
+                inner = inner.operand
+                wraps.append("not")
+            elif isinstance(inner, ast.Call) and isinstance(inner.func, ast.Name) and inner.func.id == "bool" and len(inner.args) == 1 and not inner.keywords:
+                inner = inner.args[0]           # bool(a and h()): the truth value of the chain
+                wraps.append("bool")
+            else:
+                break
         if not wanted(inner):
             return [st]
         tmp = f"__bo{next(_nf_counter)}"
         pre = chain(tmp, inner, st)
         new: ast.AST = ast.Name(id=tmp, ctx=ast.Load())
-        if neg:
-            new = ast.UnaryOp(op=ast.Not(), operand=new)
+        for w_ in reversed(wraps):
+            new = ast.UnaryOp(op=ast.Not(), operand=new) if w_ == "not" else ast.Call(func=ast.Name(id="bool", ctx=ast.Load()), args=[new], keywords=[])
         setattr(st, fld, _located(new, e))
         changed[0] = True
         return pre + [st]
+
+    _rewrite_blocks(fn, stmt)
+    return changed[0]
+
+
+def _unroll_local_tables(fn: ast.AST) -> bool:
+    """`for a, b in ((x, y), (u, v)): BODY [else: ELSE]` over a display of tuples of plain locals (written in place or bound once to a
+    local; the locals named in the rows are bound once) is written out: one copy of BODY per row with the loop variables replaced,
+    `continue` ends the copy, `break` ends the sequence, ELSE runs when no copy broke out (the engine's block / jump forms)"""
+    try:
+        from ..inline import _own_jumps_to_blocks, _block
+    except ImportError:                                                     # pragma: no cover
+        return False
+    counts = _store_counts(fn)
+    single = _single_defs(fn)
+    changed = [False]
+
+    def plain(e: ast.AST) -> bool:
+        if isinstance(e, ast.Constant):
+            return True
+        if isinstance(e, ast.Name):
+            return counts.get(e.id, 0) <= 1
+        if isinstance(e, (ast.Tuple, ast.List)):
+            return all(plain(y) for y in e.elts)
+        return False
+
+    def stmt(st: ast.stmt) -> List[ast.stmt]:
+        if not isinstance(st, ast.For):
+            return [st]
+        t = single.get(st.iter.id) if isinstance(st.iter, ast.Name) else st.iter
+        if not isinstance(t, (ast.Tuple, ast.List)) or not (1 <= len(t.elts) <= 12) or not all(isinstance(r_, (ast.Tuple, ast.List)) and plain(r_) for r_ in t.elts):
+            return [st]
+        tnames = C.target_names(st.target)
+        if any(isinstance(x, ast.Name) and x.id in tnames and not isinstance(x.ctx, ast.Load) for s_ in st.body + st.orelse for x in ast.walk(s_)):
+            return [st]
+        if any(isinstance(x, (ast.FunctionDef, ast.AsyncFunctionDef, ast.Lambda, ast.Global, ast.Nonlocal, ast.Yield, ast.YieldFrom)) for s_ in st.body for x in ast.walk(s_)):
+            return [st]
+        k = next(_nf_counter)
+        outer = f"lt{k}:loop"
+        copies: List[ast.stmt] = []
+        for idx, row in enumerate(t.elts):
+            env: Dict[str, ast.AST] = {}
+            if not Verdict.bind(st.target, row, env) or not all(isinstance(v, (ast.Name, ast.Constant)) for v in env.values()):
+                return [st]
+            body = [_Subst(env).visit(copy.deepcopy(s_)) for s_ in st.body]
+            # the loop variables keep their last values
+            body = [_located(ast.Assign(targets=[ast.Name(id=nm, ctx=ast.Store())], value=copy.deepcopy(v), lineno=st.lineno), st) for nm, v in env.items()] + body
+            inner = f"lt{k}:{idx}"
+            copies.append(_block(inner, _own_jumps_to_blocks(body, inner, outer), st))
+        whole = _block(outer, copies + list(st.orelse), st)
+        ast.fix_missing_locations(whole)
+        changed[0] = True
+        return [whole]
 
     _rewrite_blocks(fn, stmt)
     return changed[0]
@@ -728,12 +916,26 @@ class _Records:
         name = a.id if isinstance(a, ast.Name) else (a.value if isinstance(a, ast.Constant) and isinstance(a.value, str) else (a.attr if isinstance(a, ast.Attribute) else None))
         return name if isinstance(name, str) and record_fields(self.repo, name) else None
 
+    def _unbound(self, e: ast.AST) -> Optional[Tuple[str, FuncInfo]]:
+        """(record class, method) when e is `Rec.method(x, ..)`: the plain method of a record class called through the class"""
+        if not (isinstance(e, ast.Call) and isinstance(e.func, ast.Attribute) and isinstance(e.func.value, ast.Name) and e.func.value.id not in self.locals
+                and record_fields(self.repo, e.func.value.id) and e.args and not isinstance(e.args[0], ast.Starred)):
+            return None
+        m = self.repo.find_method(e.func.value.id, e.func.attr)
+        if m is None or not m.is_method or m.node.decorator_list or getattr(m, "static", False):
+            return None
+        return e.func.value.id, m
+
     def rec_type(self, e: ast.AST, assume: Optional[Dict[str, str]] = None) -> Optional[str]:
         if isinstance(e, ast.Name):
             return self.vars.get(e.id) or (assume or {}).get(e.id)
         c = self.ctor(e)
         if c is not None:
             return c
+        ub = self._unbound(e)
+        if ub is not None:
+            # Rec.method(x, ..) with x a Rec is x.method(..)
+            return self._ann_record(ub[1].node.returns) if self.rec_type(e.args[0], assume) == ub[0] else None
         if isinstance(e, ast.Call) and isinstance(e.func, ast.Attribute) and isinstance(e.func.value, ast.Name):
             recv = self.vars.get(e.func.value.id) or (assume or {}).get(e.func.value.id)
             if recv is not None:
@@ -785,6 +987,25 @@ class _Records:
     def inline_members(self, fl: Flattener, stack: tuple) -> bool:
         """one round: calls `X.m(..)` / property reads `X.p` of record locals, evaluated unconditionally at statement level"""
         done = [False]
+        me = self
+
+        class Bound(ast.NodeTransformer):
+            """`Rec.method(x, a)` where x is a record local of exactly that class is `x.method(a)`"""
+
+            def visit_Lambda(self, n):
+                return n
+
+            def visit_Call(self, n):
+                self.generic_visit(n)
+                ub = me._unbound(n)
+                if ub is not None and isinstance(n.args[0], ast.Name) and me.vars.get(n.args[0].id) == ub[0]:
+                    done[0] = True
+                    return _located(ast.Call(func=ast.Attribute(value=n.args[0], attr=n.func.attr, ctx=ast.Load()), args=list(n.args[1:]), keywords=list(n.keywords)), n)
+                return n
+
+        Bound().visit(self.fn)
+        if done[0]:
+            return True
 
         def member(e: ast.AST) -> Optional[Tuple[FuncInfo, ast.Call]]:
             if isinstance(e, ast.Call) and isinstance(e.func, ast.Attribute) and isinstance(e.func.value, ast.Name) and e.func.value.id in self.vars:
@@ -908,6 +1129,27 @@ class _Records:
             if isinstance(v, ast.Name) and v.id in self.vars:
                 self._deps.add(v.id)
                 pos.extend(ast.Name(id=self.field_var(v.id, f), ctx=ast.Load()) for f in record_fields(self.repo, self.vars[v.id]))
+                continue
+            if isinstance(v, (ast.GeneratorExp, ast.ListComp)) and len(v.generators) == 1 and not v.generators[0].ifs and not v.generators[0].is_async:
+                # Rec(*(E for a, b in zip(X, Y))) with record locals X, Y: one element per field
+                gen = v.generators[0]
+                zipped = isinstance(gen.iter, ast.Call) and isinstance(gen.iter.func, ast.Name) and gen.iter.func.id == "zip" and "zip" not in self.locals \
+                    and bool(gen.iter.args) and not gen.iter.keywords
+                srcs = list(gen.iter.args) if zipped else [gen.iter]
+                if not all(isinstance(x, ast.Name) and x.id in self.vars for x in srcs):
+                    return None
+                tn = C.target_names(gen.target)
+                if any(isinstance(x, ast.Name) and x.id in tn and not isinstance(x.ctx, ast.Load) for x in ast.walk(v.elt)):
+                    return None
+                cols = [[ast.Name(id=self.field_var(x.id, f), ctx=ast.Load()) for f in record_fields(self.repo, self.vars[x.id])] for x in srcs]
+                for x in srcs:
+                    self._deps.add(x.id)
+                for i in range(min(len(c_) for c_ in cols)):
+                    row: ast.AST = ast.Tuple(elts=[c_[i] for c_ in cols], ctx=ast.Load()) if zipped else cols[0][i]
+                    env: Dict[str, ast.AST] = {}
+                    if not Verdict.bind(gen.target, row, env):
+                        return None
+                    pos.append(_Subst(env).visit(copy.deepcopy(v.elt)))
                 continue
             src = self.single.get(v.id) if isinstance(v, ast.Name) else v
             if isinstance(src, (ast.Tuple, ast.List)) and not any(isinstance(x, ast.Starred) for x in src.elts):
@@ -1055,8 +1297,19 @@ class _Records:
                 tmp = f"__sra_t{next(_nf_counter)}"
                 pre.append(_located(ast.Assign(targets=[ast.Name(id=tmp, ctx=ast.Store())], value=val, lineno=st.lineno), st))
                 vals = [ast.Subscript(value=ast.Name(id=tmp, ctx=ast.Load()), slice=ast.Constant(value=i), ctx=ast.Load()) for i in range(len(fields))]
-            plans[id(st)] = pre + [_located(ast.Assign(targets=[ast.Name(id=self.field_var(tgt, f), ctx=ast.Store())], value=v, lineno=st.lineno), st)
-                                   for f, v in zip(fields, vals)]
+            root_ = self.alias.get(tgt, tgt)
+            own = any(isinstance(x, ast.Name) and ((x.id in self.vars and self.alias.get(x.id, x.id) == root_) or x.id.startswith(root_ + "__f_"))
+                      for v in vals for x in ast.walk(v))
+            if own and len(fields) > 1:
+                # the new record is computed from the old value of the same local: all fields are read before any is written
+                k = next(_nf_counter)
+                tmps = [f"{self.field_var(tgt, f)}__n{k}" for f in fields]
+                plans[id(st)] = pre + [_located(ast.Assign(targets=[ast.Name(id=t_, ctx=ast.Store())], value=v, lineno=st.lineno), st) for t_, v in zip(tmps, vals)] \
+                    + [_located(ast.Assign(targets=[ast.Name(id=self.field_var(tgt, f), ctx=ast.Store())], value=ast.Name(id=t_, ctx=ast.Load()), lineno=st.lineno), st)
+                       for f, t_ in zip(fields, tmps)]
+            else:
+                plans[id(st)] = pre + [_located(ast.Assign(targets=[ast.Name(id=self.field_var(tgt, f), ctx=ast.Store())], value=v, lineno=st.lineno), st)
+                                       for f, v in zip(fields, vals)]
         # a field that is assigned (`X.f = v`, mutable dataclass): the per-field locals of two record locals that may be the same
         # object would drift apart, so such a class is only split when none of its locals is a field-by-field copy of another
         assigned = {self.vars[n.value.id] for n in _walk_scope(self.fn) if isinstance(n, ast.Attribute) and not isinstance(n.ctx, ast.Load)
@@ -1360,7 +1613,46 @@ _pol_counter = itertools.count(1)
 _flat_cache: Dict[tuple, FuncInfo] = {}
 
 
+def _expand_generators_keeping(repo: Repo, cur: FuncInfo, fn: ast.AST, stack: tuple, keep: tuple) -> bool:
+    """the engine's generator-helper expansion, except that the callees in `keep` stay calls inside the generator's body too (the
+    engine flattens the generator on its own, without the caller's exclusions).  Done by handing the engine's expansion a flattening
+    function for the duration of this call only; with an engine that does not look the function up that way nothing changes."""
+    if not keep:
+        return expand_generators(repo, cur, fn, stack)
+    from .. import inline as I
+    orig = getattr(I, "flatten", None)
+    if orig is None:
+        return expand_generators(repo, cur, fn, stack)
+
+    def flatten_keeping(repo_, callee, *a, **k):
+        if a or k or repo_ is not repo:
+            return orig(repo_, callee, *a, **k)
+        fl = Flattener(repo, callee)
+        node = copy.deepcopy(callee.node)
+        body = list(node.body)
+        try:
+            body = I.normalise_body(body, repo, callee)
+        except Exception:
+            pass
+        try:
+            body = _loops_over_generators(repo, callee, body)
+        except Exception:
+            pass
+        node.body = fl._flatten_block(body, callee, (callee.qn,) + tuple(keep), 1)
+        ast.fix_missing_locations(node)
+        out = FuncInfo(callee.mod, callee.cls, node, static=callee.static)
+        out.qn = callee.qn
+        return out
+
+    I.flatten = flatten_keeping
+    try:
+        return expand_generators(repo, cur, fn, stack)
+    finally:
+        I.flatten = orig
+
+
 def flatten_full(repo: Repo, f: FuncInfo, exclude: Iterable[str] = ()) -> FuncInfo:
+    exclude = tuple(exclude)
     key = (id(repo), f.qn, id(f.node), tuple(sorted(exclude)))
     if key in _flat_cache:
         return _flat_cache[key]
@@ -1381,13 +1673,14 @@ def flatten_full(repo: Repo, f: FuncInfo, exclude: Iterable[str] = ()) -> FuncIn
         fun.visit(fn)
         hoisted = _hoist_nested_comprehensions(fn)
         hoisted = _split_boolops(fn) or hoisted
+        hoisted = _unroll_local_tables(fn) or hoisted
         try:
             body = _loops_over_generators(repo, cur, list(fn.body))
         except Exception:
             body = list(fn.body)
         fn.body = fl._flatten_block(body, cur, stack, 1)
         try:
-            gen = expand_generators(repo, cur, fn, stack)
+            gen = _expand_generators_keeping(repo, cur, fn, stack, tuple(exclude))
         except Exception:
             gen = False
         members = _Records(repo, cur, fn).inline_members(fl, stack)
@@ -1703,12 +1996,51 @@ def direct_kinds(path: tuple) -> List[Tuple[tuple, str]]:
     return out
 
 
+class ShortProv(P.Prov):
+    """provenance whose paths say "put into a container, then taken out again" with no steps at all (the engine says it with two
+    steps, `in:append@xs` .. `elem`, and cuts paths at a fixed length: values that are handed through several lists / tuples /
+    comprehensions would lose the end of their path).  `in:<i>` followed by `unpack:<i>` / `item:<i>` cancels the same way (another
+    position: the path is spurious).  Stores through a subscript (`xs[k] = v`) are kept: they tell which list a value went through."""
+
+    def _ext(self, paths, step):
+        digit = (step.startswith("unpack:") or step.startswith("item:")) and step.split(":", 1)[1].isdigit()
+        if step != "elem" and not digit:
+            return super()._ext(paths, step)
+        rest, done = set(), set()
+        for x in paths:
+            if digit:
+                last = x[-1]
+                if len(x) > 1 and last.startswith("in:") and last[3:].isdigit():
+                    if last[3:] == step.split(":", 1)[1]:
+                        done.add(x[:-1])
+                    continue
+                rest.add(x)
+                continue
+            k = len(x) - 1
+            while k >= 1 and (x[k].startswith(CONTAINER_MOVE) or x[k] in CONTAINER_PASS):
+                k -= 1
+            if k >= 1 and ((x[k].startswith(ELEMENT_IN) and not x[k].startswith("in:setitem@")) or (x[k].startswith("in:") and x[k][3:].isdigit())):
+                done.add(x[:k])
+            else:
+                rest.add(x)
+        return (super()._ext(rest, step) if rest else set()) | done
+
+
+_short_prov_cache: Dict[int, "ShortProv"] = {}
+
+
+def short_prov(repo: Repo, f: FuncInfo) -> "ShortProv":
+    if id(f.node) not in _short_prov_cache:
+        _short_prov_cache[id(f.node)] = ShortProv(repo, f)
+    return _short_prov_cache[id(f.node)]
+
+
 class Polarised:
     """element kinds of set-valued expressions of one (flattened) function; 'disc' becomes add / del by the valuation of is_positive"""
 
     def __init__(self, repo: Repo, f: FuncInfo, extractors: Optional["Extractors"] = None):
         self.repo, self.f = repo, f
-        self.p = L.prov(repo, f)
+        self.p = short_prov(repo, f)
         self.ex = extractors
         G = L.Guards(f, _polarity_matcher)
         if "pos" in G.atoms_seen:
@@ -1777,13 +2109,29 @@ class Extractors:
         self.qns: List[str] = []
         seen: Set[str] = {start.qn}
         queue = [start]
+        # besides the calls written in the code, whatever the flattening of the step pulls in (helpers reached through tables of method
+        # names, getattr, partial, function-valued parameters ...) is searched too
+        try:
+            pulled = [q for q in getattr(flatten_full(repo, start), "inlined", []) if q in repo.funcs]
+        except Exception:
+            pulled = []
+        for q in dict.fromkeys(pulled):
+            if q in seen:
+                continue
+            seen.add(q)
+            s = self._summary(repo.funcs[q])
+            if s is None:
+                queue.append(repo.funcs[q])
+            else:
+                self.by_name[repo.funcs[q].name] = s
+                self.qns.append(q)
         while queue:
             g = queue.pop(0)
-            for c in L.calls_in(g.node):
+            for c in self._references(g):
                 if not is_private(callee_name(c)):
                     continue
                 t = unique_target(repo, g, c)
-                if t is None or t.qn in seen:
+                if t is None or t.qn in seen or t.qn in self.qns:
                     continue
                 seen.add(t.qn)
                 s = self._summary(t)
@@ -1792,6 +2140,20 @@ class Extractors:
                 else:
                     self.by_name[t.name] = s
                     self.qns.append(t.qn)
+
+    @staticmethod
+    def _references(g: FuncInfo) -> List[ast.Call]:
+        """the calls made by g, and -- as calls without arguments -- the private functions g only mentions (handed to partial / map /
+        reduce, stored in a table, bound to a local): they are called too, by whoever receives the value"""
+        calls = list(L.calls_in(g.node))
+        called = {id(c.func) for c in calls}
+        out = list(calls)
+        for n in ast.walk(g.node):
+            if id(n) in called or not isinstance(getattr(n, "ctx", None), ast.Load):
+                continue
+            if (isinstance(n, ast.Attribute) and isinstance(n.value, ast.Name) and is_private(n.attr)) or (isinstance(n, ast.Name) and is_private(n.id)):
+                out.append(ast.copy_location(ast.Call(func=n, args=[], keywords=[]), n))
+        return out
 
     def _summary(self, t: FuncInfo) -> Optional[Dict[Optional[int], Set[Tuple[int, str]]]]:
         ft = flatten_full(self.repo, t)
@@ -1851,6 +2213,9 @@ class Verdict:
         self._atom_cache: Dict[int, Optional[Tuple[str, bool]]] = {}
         self._role_cache: Dict[int, Optional[str]] = {}
         self.pairs_seen: Set[str] = set()
+        self.pair_operands: List[Tuple[ast.AST, ast.AST, str, str]] = []        # (operand, operand, role, role) of every set test recognised
+        self.extra = None           # optional further atoms: expr -> (name, polarity) | None (not cached)
+        self.member_walks: List[Tuple[int, object, Set[int]]] = []      # (CFG node of a `for` over the members of the step, its nop-test matcher, the nodes of its body)
 
     # -- operands
     @staticmethod
@@ -1866,8 +2231,9 @@ class Verdict:
             return None
         if pre[0] == self.plan and len(pre) > 1 and pre[1] == "item:0" and "elem" not in pre and not any(s.startswith("in:") for s in pre):
             return "next"
-        if "elem" in pre:
-            i = pre.index("elem")
+        member = [i for i, s in enumerate(pre) if s in ("elem", "item")]       # an element of a list: by iteration or by a computed position
+        if member:
+            i = member[0]
             if any(s.startswith(("in:setitem@", "in:elt", "in:append@", "in:setval@", "in:insert@")) for s in pre[:i]):
                 return "acc"
             if pre[0].startswith("param:") and pre[0] != self.plan:
@@ -1934,6 +2300,9 @@ class Verdict:
             return None
         name = "pair:" + pair_name(ra, rb)
         self.pairs_seen.update(self.components(name))
+        oa, ob = self.res(a, env), self.res(b, env)
+        if not any(x is oa and y is ob for x, y, _ra, _rb in self.pair_operands):
+            self.pair_operands.append((oa, ob, ra, rb))
         return name, pol
 
     @staticmethod
@@ -1971,6 +2340,10 @@ class Verdict:
         return self._pair_atom(ab[0], ab[1], env, pol)
 
     def atom(self, e: ast.AST, env=None) -> Optional[Tuple[str, bool]]:
+        if self.extra is not None:
+            x = self.extra(e)
+            if x is not None:
+                return x
         if env is None and id(e) in self._atom_cache:
             return self._atom_cache[id(e)]
         out = self._atom(e, env)
@@ -2111,11 +2484,44 @@ class Verdict:
             return None if v is None else ("T" if v else "!T")
         return m
 
-    def reach(self, sc: Dict[str, bool]) -> Set[int]:
+    def reach(self, sc: Dict[str, bool], start: Optional[Iterable[int]] = None, avoid: Iterable[int] = ()) -> Set[int]:
         """CFG nodes reachable under the scenario: forward abstract interpretation with an environment of the boolean locals whose
         value is decided (flow-sensitive, refined by the branch taken, joined pointwise), so that flags that are accumulated over
-        several tests (`ok = True; if a: ok = False; if ok: ok = b(); return ok`) are followed like early returns"""
+        several tests (`ok = True; if a: ok = False; if ok: ok = b(); return ok`) are followed like early returns.
+        `start`: the nodes reachable from these nodes (entered with what is known there when the function is run from its entry);
+        `avoid`: nodes that are reached but not left."""
         g = C.cfg_of(self.f.node)
+        avoid = set(avoid)
+        seed: Optional[Dict[int, Dict[str, bool]]] = None
+        if start is not None:
+            full = self._reach_in(sc)
+            seed = {n: dict(full[n]) for n in start if full.get(n) is not None}
+            if not seed:
+                return set()
+        closed: Set[int] = set()
+        if start is None and self.member_walks and self.extra is None and any(v is True and k.startswith("pair:") for k, v in sc.items()):
+            # a scenario in which two sets share an element: the set of the step's members is not empty, so some non-nop member is
+            # walked.  A walk over the members that is left by every non-nop member (the test sits inside the walk and fires) does not
+            # come to its normal end then.
+            sc2 = dict(sc)
+            sc2["member-is-nop"] = False
+            for head, nop, body in self.member_walks:
+                starts = [m for m, l in g.succ[head] if l == "iter"]
+                self.extra = nop
+                try:
+                    seen = self.reach(sc2, start=starts, avoid=set(g.nodes()) - set(body))      # one iteration: what lies outside the walk is not entered
+                finally:
+                    self.extra = None
+                if seen and head not in seen:
+                    closed.add(head)
+        IN = self._propagate(g, sc, seed, avoid, closed)
+        return {n for n in g.nodes() if IN[n] is not None}
+
+    def _reach_in(self, sc: Dict[str, bool]) -> Dict[int, Optional[Dict[str, bool]]]:
+        return self._propagate(C.cfg_of(self.f.node), sc, None, set())
+
+    def _propagate(self, g, sc: Dict[str, bool], seed: Optional[Dict[int, Dict[str, bool]]], avoid: Set[int], closed: Iterable[int] = ()) -> Dict[int, Optional[Dict[str, bool]]]:
+        closed = set(closed)
 
         def val(env):
             def v(e):
@@ -2157,12 +2563,19 @@ class Verdict:
             return out
 
         IN: Dict[int, Optional[Dict[str, bool]]] = {n: None for n in g.nodes()}
-        IN[g.entry] = {}
-        work = [g.entry]
+        if seed is None:
+            IN[g.entry] = {}
+            work = [g.entry]
+        else:
+            for n_, e_ in seed.items():
+                IN[n_] = dict(e_)
+            work = list(seed)
         steps = 0
         while work and steps < 20000:
             steps += 1
             n = work.pop()
+            if n in avoid:
+                continue
             env = IN[n]
             kind, st = g.kind[n], g.stmt[n]
             out = transfer(n, env)
@@ -2173,6 +2586,8 @@ class Verdict:
                 tv_ = C.eval3(test, val(env))
             for m, l in g.succ[n]:
                 e2 = out
+                if n in closed and l == "done":
+                    continue
                 if test is not None:
                     truth = {True: True, False: False, "iter": True, "done": False, "ok": True, "fail": False}.get(l)
                     if truth is not None:
@@ -2184,7 +2599,7 @@ class Verdict:
                 if old is None or new != old:
                     IN[m] = dict(new)
                     work.append(m)
-        return {n for n in g.nodes() if IN[n] is not None}
+        return IN
 
 
 def module_const(repo: Repo, modsuffix: str, name: str):
@@ -2212,3 +2627,346 @@ def per_iteration(g: C.CFG, head: int, nodes: Set[int]) -> Tuple[bool, bool]:
         if after & set(nodes):
             at_most = False
     return at_least, at_most
+
+
+# --------------------------------------------------------------------------------------------------------------- member walks
+COMPS = (ast.ListComp, ast.SetComp, ast.GeneratorExp, ast.DictComp)
+ORDER_WRAPPERS = ("list", "tuple", "iter", "sorted", "reversed")
+FRESH_CONTAINERS = ("list", "set", "dict", "deque")
+
+
+class Walk:
+    """one walk over the members of a step (or over something computed member by member): a `for` statement or one generator of
+    a comprehension"""
+
+    def __init__(self, kind: str, node: ast.AST, owner: ast.AST, status: str, source: int):
+        self.kind, self.node, self.owner, self.status, self.source = kind, node, owner, status, source
+        self.relevant = False
+        self.feeds: List[Tuple[int, ast.AST]] = []      # (allocation site of a container filled in the body, the filling statement's call)
+
+    @property
+    def target(self) -> ast.AST:
+        return self.node.target
+
+    @property
+    def iter(self) -> ast.AST:
+        return self.node.iter
+
+
+class Members:
+    """which loops / comprehensions of the flattened packing step walk over the members of the slot list (directly, or over a
+    container that was filled member by member), whether each walk is complete, and what it computes from its element.
+    Identification is by allocation-site identity (`origins`), not by names."""
+
+    def __init__(self, repo: Repo, f: FuncInfo, p: P.Prov, g: C.CFG, slot_ids: Set[int], V: "Verdict", ex: "Extractors", agents_param: str):
+        self.repo, self.f, self.p, self.g, self.V, self.ex = repo, f, p, g, V, ex
+        self.agents = f"param:{agents_param}"
+        self.parents = L.parents_of(f)
+        self.containers: Dict[int, Optional[Walk]] = {i: None for i in slot_ids}        # allocation site -> the walk that fills it
+        self.container_nodes: Dict[int, ast.AST] = {}
+        self.walks: List[Walk] = []
+        self._by_node: Dict[int, Walk] = {}
+        self._discover()
+        self._relevance()
+
+    # -- the iterable of a walk
+    def _is_container(self, e: ast.AST) -> Optional[int]:
+        try:
+            for o in origins(self.p, e):
+                if id(o) in self.containers:
+                    return id(o)
+        except Exception:
+            pass
+        return None
+
+    def _mentions_container(self, e: ast.AST) -> bool:
+        return any(isinstance(n, ast.Name) and isinstance(n.ctx, ast.Load) and self._is_container(n) is not None for n in ast.walk(e)) \
+            or self._is_container(e) is not None
+
+    def classify(self, it: ast.AST, depth: int = 0) -> Tuple[Optional[str], Optional[int]]:
+        """('complete' | 'restricted' | 'unknown' | None, allocation site of the container walked)"""
+        if depth > 6:
+            return ("unknown", None) if self._mentions_container(it) else (None, None)
+        c = self._is_container(it)
+        if c is not None:
+            return "complete", c
+        o = it
+        if isinstance(it, ast.Name):
+            try:
+                os_ = origins(self.p, it)
+            except Exception:
+                os_ = []
+            if len(os_) == 1 and isinstance(os_[0], ast.expr) and not isinstance(os_[0], ast.Name):
+                o = os_[0]
+            elif len(os_) > 1:
+                got = {self.classify(x, depth + 1) for x in os_ if isinstance(x, ast.expr) and not isinstance(x, ast.Name)}
+                if len(got) == 1:
+                    return next(iter(got))
+                return ("unknown", None) if any(s_ for s_, _c in got) else (None, None)
+        if isinstance(o, ast.Call) and isinstance(o.func, ast.Name):
+            fn, args = o.func.id, o.args
+            if fn in ORDER_WRAPPERS and args and not any(isinstance(a, ast.Starred) for a in args):
+                return self.classify(args[0], depth + 1)
+            if fn == "enumerate" and args:
+                return self.classify(args[0], depth + 1)
+            if fn == "range" and len(args) == 1 and isinstance(args[0], ast.Call) and isinstance(args[0].func, ast.Name) and args[0].func.id == "len" and len(args[0].args) == 1:
+                inner = args[0].args[0]
+                st, c = self.classify(inner, depth + 1)
+                if st == "complete":
+                    return st, c
+                try:
+                    if all(t == (self.agents,) for t in self.p.trace(inner)) and self.p.trace(inner):
+                        return None, None           # positions of the agents: as many as there are slots, but no members are read here
+                except KeyError:
+                    pass
+                return st, c
+            if fn == "range" and len(args) > 1:
+                for a in args:
+                    for y in ast.walk(a):
+                        if isinstance(y, ast.Call) and isinstance(y.func, ast.Name) and y.func.id == "len" and len(y.args) == 1:
+                            st, c = self.classify(y.args[0], depth + 1)
+                            if st is not None:
+                                return "restricted", c      # positions of some of the members only
+                return None, None
+            if fn == "zip" and args and not any(isinstance(a, ast.Starred) for a in args):
+                sts = [self.classify(a, depth + 1) for a in args]
+                hits = [(s_, c_) for s_, c_ in sts if s_ is not None]
+                if not hits:
+                    return None, None
+                if any(s_ != "complete" for s_, _c in hits):
+                    return ("restricted" if any(s_ == "restricted" for s_, _c in hits) else "unknown"), hits[0][1]
+                for a, (s_, _c) in zip(args, sts):
+                    if s_ is None and not self._per_agent(a):
+                        return "unknown", hits[0][1]    # zip stops at the shorter input
+                return "complete", hits[0][1]
+            if fn in ("islice", "takewhile", "dropwhile") and args:
+                st, c = self.classify(args[-1] if fn != "islice" else args[0], depth + 1)
+                return ("restricted", c) if st is not None else (None, None)
+        if isinstance(o, ast.Attribute) and o.attr in ("actions", "operational_actions"):
+            inner = o.value
+            try:
+                os_ = origins(self.p, inner)
+            except Exception:
+                os_ = [inner]
+            if len(os_) == 1 and isinstance(os_[0], ast.Call) and callee_name(os_[0]) == "JointActionCall":
+                a = L.arg_of(os_[0], self.repo.find_method("JointActionCall", "__init__"), "actions", 0)
+                if a is not None:
+                    return self.classify(a, depth + 1)
+        if isinstance(o, ast.Subscript) and isinstance(o.slice, ast.Slice):
+            st, c = self.classify(o.value, depth + 1)
+            if st is not None:
+                whole = o.slice.lower is None and o.slice.upper is None and (o.slice.step is None or (isinstance(o.slice.step, ast.Constant) and o.slice.step.value in (1, -1)))
+                return (st if whole else "restricted"), c
+            return None, None
+        if isinstance(o, ast.Starred):
+            return self.classify(o.value, depth + 1)
+        if isinstance(o, (ast.List, ast.Tuple)) and len(o.elts) == 1 and isinstance(o.elts[0], ast.Starred):
+            return self.classify(o.elts[0].value, depth + 1)
+        if self._mentions_container(o):
+            # the members are read in a way that is not interpreted here -- unless they are not read at all (len(slots), str(slots))
+            if all(self._only_measured(n) for n in ast.walk(o) if isinstance(n, ast.Name) and isinstance(n.ctx, ast.Load) and self._is_container(n) is not None):
+                return None, None
+            return "unknown", None
+        return None, None
+
+    def _only_measured(self, n: ast.AST) -> bool:
+        par = self.parents.get(n)
+        return isinstance(par, ast.Call) and isinstance(par.func, ast.Name) and par.func.id in ("len", "str", "repr", "id", "bool") and n in par.args
+
+    def _per_agent(self, a: ast.AST) -> bool:
+        try:
+            tr = self.p.trace(a)
+        except KeyError:
+            return False
+        ok = {(self.agents,), (self.agents, "arg0:len", "arg0:range"), (self.agents, "arg0:enumerate")}
+        if tr and all(t in ok for t in tr):
+            return True
+        if isinstance(a, ast.Call) and isinstance(a.func, ast.Name) and a.func.id == "count":
+            return True
+        if isinstance(a, ast.Call) and isinstance(a.func, ast.Name) and a.func.id == "range" and len(a.args) == 1:
+            return self.classify(a, 5)[0] == "complete"
+        return False
+
+    # -- discovery (to a fixpoint: a container filled inside a walk is walked later)
+    def _discover(self) -> None:
+        fors = [n for n in ast.walk(self.f.node) if isinstance(n, ast.For)]
+        comps = [n for n in ast.walk(self.f.node) if isinstance(n, COMPS)]
+        for _round in range(5):
+            grew = False
+            for n in fors:
+                if id(n) in self._by_node:
+                    continue
+                st, c = self.classify(n.iter)
+                if st is None:
+                    continue
+                w = Walk("for", n, n, st, c)
+                self._add(w)
+                grew = True
+                for call in L.calls_in(n):
+                    if isinstance(call.func, ast.Attribute) and call.func.attr in ("append", "add", "extend", "update", "insert", "appendleft") and call.args:
+                        self._feed(w, call.func.value, call)
+                for s_ in ast.walk(n):
+                    if isinstance(s_, ast.Assign) and len(s_.targets) == 1 and isinstance(s_.targets[0], ast.Subscript):
+                        self._feed(w, s_.targets[0].value, s_)
+            for cmp_ in comps:
+                for gen in cmp_.generators:
+                    if id(gen) in self._by_node:
+                        continue
+                    st, c = self.classify(gen.iter)
+                    if st is None:
+                        continue
+                    w = Walk("comp", gen, cmp_, st, c)
+                    self._add(w)
+                    grew = True
+                    if id(cmp_) not in self.containers:
+                        self.containers[id(cmp_)] = w
+                    par = self.parents.get(cmp_)
+                    if isinstance(par, ast.Call) and isinstance(par.func, ast.Name) and par.func.id in ("list", "set", "tuple", "sorted", "frozenset", "deque") \
+                            and len(par.args) == 1 and id(par) not in self.containers:
+                        self.containers[id(par)] = w
+            if not grew:
+                break
+
+    def _add(self, w: Walk) -> None:
+        self.walks.append(w)
+        self._by_node[id(w.node)] = w
+
+    def _feed(self, w: Walk, recv: ast.AST, site: ast.AST) -> None:
+        try:
+            os_ = origins(self.p, recv)
+        except Exception:
+            return
+        for o in os_:
+            fresh = (isinstance(o, (ast.List, ast.Set, ast.Dict)) and not getattr(o, "elts", getattr(o, "keys", None))) or \
+                (isinstance(o, ast.Call) and isinstance(o.func, ast.Name) and o.func.id in FRESH_CONTAINERS and not o.args and not o.keywords)
+            if fresh and id(o) not in self.containers:
+                self.containers[id(o)] = w
+            if fresh:
+                self.container_nodes[id(o)] = o
+                w.feeds.append((id(o), site))
+
+    # -- what a walk computes from its element
+    def depends_on(self, e: ast.AST, w: Walk, depth: int = 6) -> bool:
+        """the value of e is computed from the element of the walk"""
+        names = C.target_names(w.target)
+        seen: Set[int] = set()
+        todo = [(e, depth)]
+        while todo:
+            x, d = todo.pop()
+            if id(x) in seen:
+                continue
+            seen.add(id(x))
+            if x is w.node:
+                return True
+            if isinstance(x, (ast.stmt, ast.arg)):
+                continue
+            for n in ast.walk(x):
+                if isinstance(n, ast.Name) and isinstance(n.ctx, ast.Load):
+                    try:
+                        cb = self.p._comp_binding(n)
+                    except Exception:
+                        cb = None
+                    if cb is not None:
+                        if w.kind == "comp" and cb is w.node and n.id in names:
+                            return True
+                        continue
+                    if d > 0:
+                        try:
+                            todo.extend((o, d - 1) for o in origins(self.p, n) if o is not n)
+                        except Exception:
+                            pass
+        return False
+
+    def region(self, w: Walk) -> List[ast.AST]:
+        """the code evaluated once per element"""
+        if w.kind == "for":
+            return list(w.node.body)
+        c = w.owner
+        k = c.generators.index(w.node)
+        out: List[ast.AST] = list(w.node.ifs)
+        for gen in c.generators[k + 1:]:
+            out.append(gen.iter)
+            out.extend(gen.ifs)
+        out.extend([c.key, c.value] if isinstance(c, ast.DictComp) else [c.elt])
+        return out
+
+    def uses(self, w: Walk) -> Dict[str, List[ast.AST]]:
+        """what is computed from the element, by kind: 'Operator' (an operator is built from it), '<extractor name>' (its effects /
+        preconditions are extracted), 'field:<attr>' (the operator's grounded effects / preconditions are walked in place)"""
+        out: Dict[str, List[ast.AST]] = {}
+        for root in self.region(w):
+            for n in ast.walk(root):
+                if isinstance(n, ast.Call):
+                    cn = callee_name(n)
+                    if (cn == "Operator" and isinstance(n.func, ast.Name)) or cn in self.ex.by_name:
+                        if any(self.depends_on(a, w) for a in list(n.args) + [k.value for k in n.keywords]):
+                            out.setdefault(cn, []).append(n)
+                it = n.iter if isinstance(n, (ast.For, ast.comprehension)) else None
+                if it is not None:
+                    try:
+                        tr = self.p.trace(it)
+                    except KeyError:
+                        tr = set()
+                    for fld in FIELD_ROOTS:
+                        if any(x[-1] == fld or (len(x) > 1 and x[-1] == "call:copy" and x[-2] == fld) for x in tr) and self.depends_on(it, w):
+                            out.setdefault("field:" + fld[5:], []).append(n)
+        return out
+
+    def _relevance(self) -> None:
+        for w in self.walks:
+            w.uses = self.uses(w)
+            w.relevant = bool(w.uses)
+        grew = True
+        while grew:
+            grew = False
+            for w in self.walks:
+                if w.relevant:
+                    continue
+                fed = {c for c, _s in w.feeds} | ({id(w.owner)} if w.kind == "comp" else set())
+                par = self.parents.get(w.owner) if w.kind == "comp" else None
+                if par is not None:
+                    fed.add(id(par))
+                feeder = self.containers.get(w.source)
+                if any(v.relevant and v.source in fed for v in self.walks) or (feeder is not None and feeder.relevant):
+                    w.relevant = True       # it hands on what a relevant walk needs / it reads what a relevant walk computed member by member
+                    grew = True
+
+    # -- the nop test of a walk
+    def nop_atom(self, w: Walk):
+        names = C.target_names(w.target)
+
+        def of_walk(x: ast.AST) -> bool:
+            if isinstance(x, ast.Subscript):        # slots[i] in an index walk
+                return self._is_container(x.value) is not None and self.depends_on(x.slice, w, 2)
+            if not isinstance(x, ast.Name):
+                return False
+            try:
+                if self.p._comp_binding(x) is not None:
+                    return w.kind == "comp" and self.p._comp_binding(x) is w.node and x.id in names
+                os_ = origins(self.p, x)
+            except Exception:
+                return False
+            if any(o is w.node for o in os_):
+                return True
+            return len(os_) == 1 and isinstance(os_[0], ast.Subscript) and of_walk(os_[0])
+
+        def m(e: ast.AST):
+            if isinstance(e, ast.Compare) and len(e.ops) == 1 and isinstance(e.ops[0], (ast.Eq, ast.NotEq, ast.Is, ast.IsNot)):
+                for a, b in ((e.left, e.comparators[0]), (e.comparators[0], e.left)):
+                    if isinstance(a, ast.Attribute) and a.attr == "name" and self.V.is_nop(b) and of_walk(a.value):
+                        return "member-is-nop", isinstance(e.ops[0], (ast.Eq, ast.Is))
+            return None
+        return m
+
+    def body_nodes(self, w: Walk) -> Set[int]:
+        out: Set[int] = set()
+        for x in ast.walk(w.node):
+            if isinstance(x, (ast.stmt, ast.ExceptHandler)) and x is not w.node:
+                n = self.g.node_of(x)
+                if n is not None:
+                    out.add(n)
+        return out
+
+    def inside(self, w: Walk, e: ast.AST) -> bool:
+        """e is evaluated inside the walk (once per element)"""
+        return any(x is e for root in self.region(w) for x in ast.walk(root))
